@@ -7,18 +7,18 @@ Each disjunct of a test becomes one atom; a test the DSL does not know becomes `
 in the model, so it can only weaken what the theorems may assume). A public function that disappears, or a helper that
 no longer parses, raises TranslationError: a broken tie."""
 from __future__ import annotations
-import ast, re
+import ast, re, warnings
 from pathlib import Path
 from .tables import TranslationError, _write_if_changed
 
 # module (relative to mahotas/) -> public functions whose guards are extracted
 PUBLIC = {
     'segmentation.py': ['slic', 'gvoronoi'],
-    'morph.py': ['disk', 'majority_filter', 'close_holes', 'hitmiss', 'cwatershed', 'cdilate', 'cerode', 'subm'],
+    'morph.py': ['disk', 'majority_filter', 'close_holes', 'hitmiss', 'cwatershed', 'cdilate', 'cerode', 'subm', 'get_structuring_elem'],
     'center_of_mass.py': ['center_of_mass'],
     'labeled.py': ['bbox', 'bwperim', 'perimeter', 'remove_bordering', 'labeled_sum', 'is_same_labeling'],
     'convolve.py': ['convolve', 'convolve1d', 'template_match', 'find', 'rank_filter', 'median_filter', 'mean_filter', 'haar', 'daubechies',
-                    'gaussian_filter1d', 'gaussian_filter'],
+                    'gaussian_filter1d', 'gaussian_filter', '_check_rank'],
     'distance.py': ['distance'],
     'thin.py': ['thin'],
     'euler.py': ['euler'],
@@ -83,7 +83,29 @@ def atoms_of(test: ast.expr) -> list[str]:
         m = re.fullmatch(r'min\((\w+)\.shape\[:2\]\) <= (\w+) // 2', src)
         if m:
             return [f'.minDim2LeHalf {_q(m.group(1))} {_q(m.group(2))}']
+        if _attr(l, 'ndim') and c is not None and c >= 0 and isinstance(op, ast.Eq):
+            return [f'.ndimEq {_q(_attr(l, "ndim"))} {c}']
+        if _attr(l, 'size') and c == 0 and isinstance(op, ast.Eq):
+            return [f'.sizeZero {_q(_attr(l, "size"))}']
+        m = re.fullmatch(r'(\w+)\.min\(\) < 0', src)
+        if m:
+            return [f'.minNeg {_q(m.group(1))}']
+        m = re.fullmatch(r'len\((\w+)\) != (\w+)\.ndim', src)
+        if m:
+            return [f'.lenNeNdim {_q(m.group(1))} {_q(m.group(2))}']
+        m = re.fullmatch(r'np\.min\((\w+)\.shape\) <= (\w+)\.max\(\)', src)
+        if m:
+            return [f'.minDimLeMax {_q(m.group(1))} {_q(m.group(2))}']
+    m = re.fullmatch(r'not np\.all\(np\.isfinite\((\w+)\)\)', src)
+    if m:
+        return [f'.notAllFinite {_q(m.group(1))}']
+    m = re.fullmatch(r'not 0 <= (\w+) < (\w+)', src)
+    if m and COUNT_ALIAS.get(m.group(2)):
+        return [f'.rankOutside {_q(m.group(1))} {_q(COUNT_ALIAS[m.group(2)])}']
     return [f'.opaque {_q(src)}']
+
+
+COUNT_ALIAS = {}      # local `n = np.count_nonzero(X)` of the function being translated: n -> X
 
 
 def _raises(body) -> bool:
@@ -120,52 +142,600 @@ class _Rename(ast.NodeTransformer):
         return ast.copy_location(ast.Name(id=self.b, ctx=n.ctx), n) if n.id == self.a else n
 
 
-SHAPE_PRESERVING = re.compile(r'^(?:np\.(?:asarray|asanyarray|ascontiguousarray|asfortranarray|array|require)\((\w+)[,)]|int\((\w+)\)$|float\((\w+)\)$)')
+SHAPE_PRESERVING = re.compile(r"""^(?:np\.(?:asarray|asanyarray|ascontiguousarray|asfortranarray|array|require)\((\w+)(?:, ?(?!ndmin)(?:\w+=)?(?:[\w.]+|'[^']*')){0,2}\)$|int\((\w+)\)$|float\((\w+)\)$|(\w+)\.astype\([\w.]+(?:, copy=False)?\)$)""")
+# conversions that may change rank and shape but keep every VALUE finite/non-finite as it was
+VALUE_PRESERVING = re.compile(r'^np\.(?:asarray|asanyarray|ascontiguousarray|array|atleast_1d|repeat)\((\w+)[,)]')
+VALUE_ATOMS = ('.notAllFinite',)
 
 
 def _atom_vars(atom: str) -> list[str]:
     return re.findall(r'"((?:[^"\\]|\\.)*)"', atom) if not atom.startswith('.opaque') else []
 
 
-def function_guards(f: ast.FunctionDef, helpers) -> list[str]:
-    """atoms of the top-level guards of f. An atom is kept only if it speaks about PARAMETERS whose value at the guard is
-    the caller's argument up to a rank/shape/value preserving conversion (np.as*array(x…), int(x), float(x));
-    otherwise it is recorded as opaque."""
+def function_guards(f: ast.FunctionDef, helpers):
+    """(atoms, actions) of the guards of f that EVERY call meets. An atom is kept only if it speaks about PARAMETERS whose
+    value at the guard is the caller's argument up to a rank/shape/value preserving conversion (np.as*array(x…), int(x),
+    float(x), x.astype(…)); otherwise it is recorded as opaque. Guards nested under a branch are extracted only when the
+    branch is one every ndarray argument `x` takes (`if x is None: … else:`, `elif type(x) != int:`): `.whenArr x (…)`;
+    under any other branch they are opaque. The action is 0 (`raise`) for every wrapper guard."""
     import copy
     params = {a.arg for a in f.args.args}
-    dirty = set()
+    dirty, vdirty = set(), set()
     atoms = []
+    state = dict(early=False)       # a `return` has been passed: later guards are not met by every call
+    COUNT_ALIAS.clear()
 
-    def keep(at_list, src_test):
+    def keep(at_list, src_test, path):
         out = []
         for a in at_list:
             vs = _atom_vars(a)
-            if a.startswith('.opaque') or all(v in params and v not in dirty for v in vs):
+            bad = vdirty if a.startswith(VALUE_ATOMS) else dirty
+            if path is None or state['early']:
+                out.append(f'.opaque {_q("(conditional) " + ast.unparse(src_test))}')
+            elif a.startswith('.opaque') or all(v in params and v not in bad for v in vs):
+                for x in reversed(path):
+                    a = f'.whenArr {_q(x)} ({a})'
                 out.append(a)
             else:
                 out.append(f'.opaque {_q(ast.unparse(src_test))}')
         return out
 
-    for s in f.body:                      # top-level statements only: guards that every call meets
-        if isinstance(s, ast.If) and _raises(s.body) and not s.orelse:
-            atoms += keep(atoms_of(s.test), s.test)
-        elif isinstance(s, ast.Expr) and isinstance(s.value, ast.Call) and _name(s.value.func) in helpers and s.value.args and _name(s.value.args[0]):
-            param, tests = helpers[_name(s.value.func)]
-            for t in tests:
-                t2 = _Rename(param, _name(s.value.args[0])).visit(copy.deepcopy(t))
-                atoms += keep(atoms_of(t2), t2)
-        elif isinstance(s, ast.Assign):
-            for tgt in s.targets:
-                for n in ast.walk(tgt):
+    def arr_branch(test, positive):
+        if state['early']:
+            return None
+        """the parameter x such that every ndarray x takes this branch (positive: the `if` body; else: the `else` body)"""
+        src = ast.unparse(test)
+        if positive:
+            m = re.fullmatch(r'(\w+) is not None', src) or re.fullmatch(r'type\((\w+)\) != int', src)
+        else:
+            m = re.fullmatch(r'(\w+) is None', src) or re.fullmatch(r'type\((\w+)\) == int(?: and .*)?', src)
+        return m.group(1) if m and m.group(1) in params and m.group(1) not in dirty else None
+
+    def assign(s):
+        for tgt in s.targets:
+            for n in ast.walk(tgt):
+                if isinstance(n, ast.Name):
+                    v = ast.unparse(s.value)
+                    m = SHAPE_PRESERVING.match(v)
+                    if not (m and n.id in m.groups()):
+                        dirty.add(n.id)
+                        mv = VALUE_PRESERVING.match(v)
+                        if not (mv and n.id in mv.groups()):
+                            vdirty.add(n.id)
+                    mc = re.fullmatch(r'np\.count_nonzero\((\w+)\)', v)
+                    if mc and mc.group(1) in params and mc.group(1) not in dirty:
+                        COUNT_ALIAS[n.id] = mc.group(1)
+
+    def has_return(node):
+        return any(isinstance(n, ast.Return) for n in ast.walk(node))
+
+    def smudge(node):
+        for n in ast.walk(node):
+            if isinstance(n, ast.Name) and isinstance(n.ctx, ast.Store):
+                dirty.add(n.id)
+                vdirty.add(n.id)
+        if has_return(node):
+            state['early'] = True
+
+    def walk(body, path, depth):
+        nonlocal dirty, vdirty
+        for s in body:
+            if isinstance(s, ast.If) and _raises(s.body) and not s.orelse:
+                atoms.extend(keep(atoms_of(s.test), s.test, path))
+            elif isinstance(s, ast.If):
+                if depth >= 3:
+                    smudge(s)
+                    continue
+                # a branching statement: nested guards are conditional; an assignment in one branch does not reach the others
+                cur, cur_path = s, path
+                d0, v0 = set(dirty), set(vdirty)
+                dall, vall = set(dirty), set(vdirty)
+                early0, early_any = state['early'], state['early']
+                while True:
+                    dirty, vdirty = set(d0), set(v0)
+                    state['early'] = early0
+                    if _raises(cur.body):
+                        # `if t: raise … elif/else …`: on the following branches t is false; verdict-equivalent to a plain guard
+                        atoms.extend(keep(atoms_of(cur.test), cur.test, cur_path))
+                        nxt = cur_path
+                    else:
+                        x = arr_branch(cur.test, True)
+                        y = arr_branch(cur.test, False)
+                        inner = None if (cur_path is None or x is None) else (cur_path if x in cur_path else cur_path + [x])
+                        nxt = None if (cur_path is None or y is None) else (cur_path if y in cur_path else cur_path + [y])
+                        walk(cur.body, inner, depth + 1)
+                        dall |= dirty
+                        vall |= vdirty
+                        early_any = early_any or state['early']
+                    if len(cur.orelse) == 1 and isinstance(cur.orelse[0], ast.If):
+                        cur, cur_path = cur.orelse[0], nxt
+                        continue
+                    if cur.orelse:
+                        dirty, vdirty = set(d0), set(v0)
+                        state['early'] = early0
+                        walk(cur.orelse, nxt, depth + 1)
+                        dall |= dirty
+                        vall |= vdirty
+                        early_any = early_any or state['early']
+                    break
+                dirty, vdirty = dall, vall
+                state['early'] = early_any
+            elif isinstance(s, ast.Expr) and isinstance(s.value, ast.Call) and _name(s.value.func) in helpers and s.value.args and _name(s.value.args[0]):
+                param, tests = helpers[_name(s.value.func)]
+                for t in tests:
+                    t2 = _Rename(param, _name(s.value.args[0])).visit(copy.deepcopy(t))
+                    atoms.extend(keep(atoms_of(t2), t2, path))
+            elif isinstance(s, ast.Assign):
+                assign(s)
+            elif isinstance(s, ast.Return):
+                state['early'] = True
+            elif isinstance(s, ast.AugAssign):
+                for n in ast.walk(s.target):
                     if isinstance(n, ast.Name):
-                        m = SHAPE_PRESERVING.match(ast.unparse(s.value))
-                        if not (m and n.id in m.groups()):
-                            dirty.add(n.id)
-        elif isinstance(s, (ast.AugAssign, ast.For, ast.While, ast.With, ast.Try)) or (isinstance(s, ast.If) and not _raises(s.body)):
-            for n in ast.walk(s):
-                if isinstance(n, ast.Name) and isinstance(n.ctx, ast.Store):
-                    dirty.add(n.id)
+                        dirty.add(n.id)
+                        if not isinstance(s.op, ast.Mult):
+                            vdirty.add(n.id)
+            elif isinstance(s, (ast.For, ast.While, ast.With, ast.Try)):
+                smudge(s)
+
+    walk(f.body, [], 0)
     return atoms
+
+
+def reach_conditions(f: ast.FunctionDef, callee: str) -> list[str]:
+    """the test of the `if` whose body calls the native `callee`, as the list of atoms that must all PASS (not reject)
+    for the call to be reached: `A and B` guarding the call is the guard list [not A, not B]. Names denote the values
+    of the local variables at the test (not the caller's arguments)."""
+    for s in ast.walk(f):
+        if isinstance(s, ast.If) and any(isinstance(n, ast.Call) and ast.unparse(n.func) == callee for b in s.body for n in ast.walk(b)) \
+                and not any(isinstance(n, ast.Call) and ast.unparse(n.func) == callee for n in ast.walk(s.test)):
+            conj = s.test.values if isinstance(s.test, ast.BoolOp) and isinstance(s.test.op, ast.And) else [s.test]
+            out = []
+            for c in conj:
+                src = ast.unparse(c)
+                m = re.fullmatch(r'len\((\w+)\) < (\w+)\.shape\[(\w+)\]', src)
+                out.append(f'.lenGeDimAt {_q(m.group(1))} {_q(m.group(2))} {_q(m.group(3))}' if m else f'.opaque {_q("not (" + src + ")")}')
+            return out
+    raise TranslationError(f'{f.name}: no `if` guarding the call of {callee}')
+
+
+# ======================================================================================================================
+# native entry points: the guards at the head of `py_*` / `convexhull`
+# ======================================================================================================================
+
+NPY = {'NPY_BOOL': 0, 'NPY_BYTE': 1, 'NPY_UBYTE': 2, 'NPY_SHORT': 3, 'NPY_USHORT': 4, 'NPY_INT': 5, 'NPY_UINT': 6, 'NPY_LONG': 7, 'NPY_ULONG': 8,
+       'NPY_LONGLONG': 9, 'NPY_ULONGLONG': 10, 'NPY_FLOAT': 11, 'NPY_DOUBLE': 12, 'NPY_LONGDOUBLE': 13, 'NPY_CFLOAT': 14, 'NPY_CDOUBLE': 15,
+       'NPY_CLONGDOUBLE': 16, 'NPY_OBJECT': 17, 'NPY_INT8': 1, 'NPY_UINT8': 2, 'NPY_INT16': 3, 'NPY_UINT16': 4, 'NPY_INT32': 5, 'NPY_UINT32': 6,
+       'NPY_INT64': 7, 'NPY_UINT64': 8, 'NPY_FLOAT32': 11, 'NPY_FLOAT64': 12, 'NPY_INTP': 7, 'NPY_UINTP': 8, 'NPY_FLOAT128': 13}
+# C++ type -> dtype_code<T>() (mahotas/numpypp/numpy.hpp DECLARE_DTYPE_CODE; LP64)
+CTYPE = {'bool': 0, 'char': 1, 'unsigned char': 2, 'short': 3, 'unsigned short': 4, 'int': 5, 'unsigned int': 6, 'unsigned': 6, 'long': 7,
+         'unsigned long': 8, 'long long': 9, 'unsigned long long': 10, 'float': 11, 'double': 12, 'npy_intp': 7, 'npy_int32': 5, 'npy_uint32': 6,
+         'npy_int64': 7, 'npy_uint64': 8, 'npy_uint8': 2, 'npy_int8': 1, 'npy_int16': 3, 'npy_uint16': 4, 'npy_float32': 11, 'npy_float': 11,
+         'npy_float64': 12, 'npy_double': 12, 'npy_bool': 0}
+INT_FORMATS = set('bBhHiIlkLKn')
+
+ENTRY_RE = re.compile(r'PyObject\s*\*\s*(py_\w+|convexhull)\s*\(\s*PyObject\s*\*\s*self\s*,\s*PyObject\s*\*\s*args\s*\)\s*\{')
+METHOD_RE = re.compile(r'\{\s*"(\w+)"\s*,\s*(?:\(PyCFunction\))?\s*(\w+)\s*,')
+ERR_RE = re.compile(r'PyErr_SetString|PyErr_NoMemory|PyErr_Format|PyErr_SetObject|throw\s+PythonException')
+
+
+def strip_comments(src: str) -> str:
+    """remove // and /* */ comments (string literals are kept intact)"""
+    out = []
+    i, n = 0, len(src)
+    while i < n:
+        c = src[i]
+        if c == '"' or c == "'":
+            j = i + 1
+            while j < n and src[j] != c:
+                j += 2 if src[j] == '\\' else 1
+            out.append(src[i:j + 1])
+            i = j + 1
+        elif src.startswith('//', i):
+            j = src.find('\n', i)
+            i = n if j < 0 else j
+        elif src.startswith('/*', i):
+            j = src.find('*/', i + 2)
+            i = n if j < 0 else j + 2
+        else:
+            out.append(c)
+            i += 1
+    return ''.join(out)
+
+
+def _match(src: str, i: int, open_: str, close: str) -> int:
+    """index just after the bracket closing the one at src[i]"""
+    assert src[i] == open_
+    depth = 0
+    n = len(src)
+    while i < n:
+        c = src[i]
+        if c == '"' or c == "'":
+            j = i + 1
+            while j < n and src[j] != c:
+                j += 2 if src[j] == '\\' else 1
+            i = j + 1
+            continue
+        if c == open_:
+            depth += 1
+        elif c == close:
+            depth -= 1
+            if depth == 0:
+                return i + 1
+        i += 1
+    raise TranslationError('unbalanced ' + open_)
+
+
+def split_statements(body: str) -> list[str]:
+    """top-level statements of a brace-less block text (preprocessor lines are statements of their own)"""
+    out = []
+    i, n = 0, len(body)
+    while i < n:
+        while i < n and body[i].isspace():
+            i += 1
+        if i >= n:
+            break
+        start = i
+        if body[i] == '#':
+            while i < n:
+                j = body.find('\n', i)
+                if j < 0:
+                    i = n
+                    break
+                if body[j - 1] == '\\':
+                    i = j + 1
+                    continue
+                i = j + 1
+                break
+            out.append(body[start:i].strip())
+            continue
+        while i < n:
+            c = body[i]
+            if c == '"' or c == "'":
+                j = i + 1
+                while j < n and body[j] != c:
+                    j += 2 if body[j] == '\\' else 1
+                i = j + 1
+            elif c == '(':
+                i = _match(body, i, '(', ')')
+            elif c == '{':
+                i = _match(body, i, '{', '}')
+                k = i
+                while k < n and body[k].isspace():
+                    k += 1
+                if body.startswith('else', k) or body.startswith('catch', k) or (body.startswith('while', k) and body[start:start + 2] == 'do'):
+                    i = k
+                    continue
+                if k < n and body[k] == ';':
+                    i = k + 1
+                break
+            elif c == ';':
+                i += 1
+                break
+            elif c == ':' and re.fullmatch(r'\w+', body[start:i].strip() or '-') and not body.startswith('::', i) and body[start:i].strip() not in ('default', 'public', 'private'):
+                i += 1            # a label
+                break
+            else:
+                i += 1
+        out.append(body[start:i].strip())
+    return out
+
+
+def split_or(expr: str) -> list[str]:
+    parts, depth, cur, i = [], 0, '', 0
+    while i < len(expr):
+        c = expr[i]
+        if c == '(':
+            depth += 1
+        elif c == ')':
+            depth -= 1
+        if expr.startswith('||', i) and depth == 0:
+            parts.append(cur.strip())
+            cur = ''
+            i += 2
+            continue
+        cur += c
+        i += 1
+    parts.append(cur.strip())
+    return [' '.join(p.split()) for p in parts]
+
+
+def _names_list(s):
+    return [x.strip() for x in s.split(',')]
+
+
+def _qlist(xs):
+    return '[' + ', '.join(_q(x) for x in xs) + ']'
+
+
+def native_atom(a: str, ctx) -> tuple[str, list[str]]:
+    """one disjunct -> (Lean NAtom term, C variables it speaks about)"""
+    al = ctx['alias']
+    m = re.fullmatch(r'!PyArg_ParseTuple\(\s*args\s*,\s*"([^"]*)".*\)', a)
+    if m:
+        return f'.parse {_q(m.group(1))}', []
+    m = re.fullmatch(r'!numpy::are_arrays\(([\w, ]+)\)', a)
+    if m:
+        ns = _names_list(m.group(1))
+        return f'.notArrays {_qlist(ns)}', ns
+    m = re.fullmatch(r'!PyArray_Check\((\w+)\)', a)
+    if m:
+        x = al.get(m.group(1), ('id', m.group(1)))[1]
+        return f'.notArrays {_qlist([x])}', [x]
+    m = re.fullmatch(r'!numpy::same_shape\((\w+), ?(\w+)\)', a)
+    if m:
+        return f'.shapesDiffer {_q(m.group(1))} {_q(m.group(2))}', [m.group(1), m.group(2)]
+    m = re.fullmatch(r'!numpy::equiv_typenums\(([\w, ]+)\)', a)
+    if m:
+        ns = _names_list(m.group(1))
+        return f'.typesDiffer {_qlist(ns)}', ns
+    m = re.fullmatch(r'!PyArray_EquivTypenums\(PyArray_TYPE\((\w+)\), ?PyArray_TYPE\((\w+)\)\)', a)
+    if m:
+        ns = [m.group(1), m.group(2)]
+        return f'.typesDiffer {_qlist(ns)}', ns
+    m = re.fullmatch(r'!numpy::check_type<([\w: ]+)>\((\w+)\)', a)
+    if m and m.group(1).strip() in CTYPE:
+        return f'.typeNotEquiv {_q(m.group(2))} {CTYPE[m.group(1).strip()]}', [m.group(2)]
+    m = re.fullmatch(r'!PyArray_EquivTypenums\(PyArray_TYPE\((\w+)\), ?(NPY_\w+)\)', a) or None
+    if m and m.group(2) in NPY:
+        return f'.typeNotEquiv {_q(m.group(1))} {NPY[m.group(2)]}', [m.group(1)]
+    m = re.fullmatch(r'!PyArray_EquivTypenums\((NPY_\w+), ?PyArray_TYPE\((\w+)\)\)', a)
+    if m and m.group(1) in NPY:
+        return f'.typeNotEquiv {_q(m.group(2))} {NPY[m.group(1)]}', [m.group(2)]
+    m = re.fullmatch(r'PyArray_TYPE\((\w+)\) ?!= ?(NPY_\w+)', a)
+    if m and m.group(2) in NPY:
+        return f'.typeNe {_q(m.group(1))} {NPY[m.group(2)]}', [m.group(1)]
+    m = re.fullmatch(r'PyArray_NDIM\((\w+)\) ?(!=|==) ?(\d+)', a)
+    if m:
+        return f'.{"ndimNe" if m.group(2) == "!=" else "ndimEq"} {_q(m.group(1))} {m.group(3)}', [m.group(1)]
+    m = re.fullmatch(r'PyArray_NDIM\((\w+)\) ?!= ?PyArray_NDIM\((\w+)\)', a)
+    if m:
+        return f'.ndimsDiffer {_q(m.group(1))} {_q(m.group(2))}', [m.group(1), m.group(2)]
+    m = re.fullmatch(r'!(?:PyArray_ISCARRAY|numpy::is_carray)\((\w+)\)', a)
+    if m:
+        x = al.get(m.group(1), ('id', m.group(1)))[1]
+        return f'.notCArray {_q(x)}', [x]
+    m = re.fullmatch(r'!PyArray_ISCARRAY_RO\((\w+)\)', a)
+    if m:
+        x = al.get(m.group(1), ('id', m.group(1)))[1]
+        return f'.notCArrayRO {_q(x)}', [x]
+    m = re.fullmatch(r'!PyArray_ISCONTIGUOUS\((\w+)\)', a)
+    if m:
+        return f'.notContig {_q(m.group(1))}', [m.group(1)]
+    m = re.fullmatch(r'PyArray_SIZE\((\w+)\) ?== ?0', a)
+    if m:
+        return f'.sizeZero {_q(m.group(1))}', [m.group(1)]
+    m = re.fullmatch(r'PyArray_DIM\((\w+), ?(\d)\) ?!= ?PyArray_DIM\((\w+), ?(\d)\)', a)
+    if m:
+        return f'.dimsDiffer {_q(m.group(1))} {m.group(2)} {_q(m.group(3))} {m.group(4)}', [m.group(1), m.group(3)]
+    m = re.fullmatch(r'PyArray_DIM\((\w+), ?(\d)\) ?!= ?PyArray_NDIM\((\w+)\)', a)
+    if m:
+        return f'.dimNeNdim {_q(m.group(1))} {m.group(2)} {_q(m.group(3))}', [m.group(1), m.group(3)]
+    m = re.fullmatch(r'PyArray_DIM\((\w+), ?(\d)\) ?!= ?(\d+)', a)
+    if m:
+        return f'.dimNe {_q(m.group(1))} {m.group(2)} {m.group(3)}', [m.group(1)]
+    m = re.fullmatch(r'(\w+) ?(<|<=|>|>=|==|!=) ?(-?\d+)', a)
+    if m:
+        x, op, c = m.group(1), m.group(2), int(m.group(3))
+        if x in al:                                   # a local initialised from PyArray_NDIM / PyArray_SIZE of a parameter
+            what, arr = al[x]
+            if what == 'ndim' and op in ('!=', '==') and c >= 0:
+                return f'.{"ndimNe" if op == "!=" else "ndimEq"} {_q(arr)} {c}', [arr]
+            if what == 'size' and op == '==' and c == 0:
+                return f'.sizeZero {_q(arr)}', [arr]
+        elif x in ctx['ints'] and op in ('<', '<=', '>', '>='):
+            return f'.{ {"<": "intLt", "<=": "intLe", ">": "intGt", ">=": "intGe"}[op] } {_q(x)} ({c})', [x]
+    return f'.opaque {_q(a)}', []
+
+
+def _if_parts(stmt: str):
+    """`if (C) S1 [else S2]` -> (C, S1, S2|None)"""
+    i = stmt.index('(')
+    j = _match(stmt, i, '(', ')')
+    cond = stmt[i + 1:j - 1]
+    rest = stmt[j:].lstrip()
+    if rest.startswith('{'):
+        k = _match(rest, 0, '{', '}')
+        then, tail = rest[:k], rest[k:].lstrip()
+    else:
+        sub = split_statements(rest)
+        then = sub[0]
+        tail = rest[rest.index(then) + len(then):].lstrip()
+    els = tail[4:].lstrip() if tail.startswith('else') else None
+    return cond, then, els
+
+
+def _inner(block: str) -> str:
+    return block[1:-1] if block.startswith('{') else block
+
+
+def _exit_action(block: str, labels: dict):
+    """None when the block does not leave the function at its top level; else the action code"""
+    stmts = split_statements(_inner(block))
+    seterr = bool(ERR_RE.search(block))
+    for s in stmts:
+        m = re.fullmatch(r'return\s*(.*?)\s*;', s, re.S)
+        if m:
+            if m.group(1) in ('NULL', '0', 'nullptr'):
+                return 1 if seterr else 3
+            return 4
+        if re.fullmatch(r'Py_RETURN_\w+\s*;?', s):
+            return 4
+        m = re.fullmatch(r'goto\s+(\w+)\s*;', s)
+        if m:
+            tail = labels.get(m.group(1))
+            if tail is None:
+                raise TranslationError(f'goto {m.group(1)}: label not found')
+            if seterr and 'PyErr_Occurred' in tail and re.search(r'return\s+(NULL|0)\s*;', tail):
+                return 1
+            if not seterr and re.search(r'return\s+(?!NULL|0\s*;)', tail):
+                return 4
+            raise TranslationError(f'goto {m.group(1)}: exit path not understood')
+    return None
+
+
+STOP_RE = re.compile(r'^(#define|try\b|for\b|while\b|do\b|switch\b|SAFE_SWITCH|HANDLE|\{|gil_release\b|return\b|Py_RETURN)')
+
+
+def native_guards(body: str, cname: str, file_funcs: dict = {}):
+    """(params, fmt, [(atom, action)]) of one entry point body (text between the outer braces, comments removed)"""
+    labels = {m.group(1): body[m.end():] for m in re.finditer(r'\n\s*(\w+):\s*\n', body) if m.group(1) not in ('default', 'public', 'private')}
+    m = re.search(r'PyArg_ParseTuple\(\s*args\s*,\s*"([^"]*)"\s*((?:,\s*&\w+\s*)*)\)', body)
+    if not m:
+        raise TranslationError(f'{cname}: no PyArg_ParseTuple')
+    fmt = m.group(1)
+    params = re.findall(r'&(\w+)', m.group(2))
+    units = re.findall(r'[A-Za-z]', fmt.split('|')[0].split(':')[0]) + re.findall(r'[A-Za-z]', fmt.split('|')[1].split(':')[0] if '|' in fmt else '')
+    if len(units) != len(params):
+        raise TranslationError(f'{cname}: format {fmt!r} does not match {params}')
+    ctx = dict(alias={}, ints={p for p, u in zip(params, units) if u in INT_FORMATS}, dirty=set())
+    out = []
+
+    def wrap(atom, path):
+        for kind, x in reversed(path):
+            atom = f'.{kind} {_q(x)} ({atom})'
+        return atom
+
+    def callee_sets_error(a):
+        """`!x` / `!f(…)` where the failing callee has set the error itself (numpy allocation, or a function of this
+        file whose body sets one)"""
+        m = re.fullmatch(r'!(\w+)', a)
+        callee = None
+        if m:
+            mm = re.search(r'\b' + m.group(1) + r'\s*=\s*(?:\([^()]*\)\s*|reinterpret_cast<[^<>]*>\(\s*)?(\w+)\(', body)
+            callee = mm.group(1) if mm else None
+        else:
+            m = re.fullmatch(r'!(\w+)\(.*\)', a)
+            callee = m.group(1) if m else None
+        if callee in ('PyArray_SimpleNew', 'PyArray_EMPTY', 'PyArray_ZEROS', 'PyArray_FromDims', 'PyArray_New'):
+            return True
+        return bool(callee and callee in file_funcs and ERR_RE.search(file_funcs[callee]))
+
+    def emit(cond, action, path):
+        for a in split_or(' '.join(cond.split())):
+            for k, v in ctx['alias'].items():
+                if v[0] == 'id':
+                    a = re.sub(r'\b' + k + r'\b', v[1], a)
+            if action == 3 and callee_sets_error(a):
+                action_a = 5
+            else:
+                action_a = action
+            action, keep_action = action_a, action
+            if path is None:
+                out.append((f'.opaque {_q("(conditional) " + a)}', 2 if a.startswith('!PyArg_ParseTuple') else action))
+                action = keep_action
+                continue
+            t, vs = native_atom(a, ctx)
+            if any(v in ctx['dirty'] or v not in params for v in vs):
+                t = f'.opaque {_q(a)}'
+            out.append((wrap(t, path), 2 if t.startswith('.parse') else action))
+            action = keep_action
+
+    def path_of(cond, negate):
+        """a recognised branch condition as a path element"""
+        c = ' '.join(cond.split())
+        al = ctx['alias']
+        if negate:
+            m = re.fullmatch(r'!PyArray_Check\((\w+)\)', c)
+            if m:
+                return ('whenArr', al.get(m.group(1), ('id', m.group(1)))[1])
+            m = re.fullmatch(r'(?:reinterpret_cast<PyObject\*>\()?(\w+)\)? ?== ?Py_None', c)
+            if m:
+                return ('whenNotNone', m.group(1))
+        else:
+            m = re.fullmatch(r'PyArray_Check\((\w+)\)', c)
+            if m:
+                return ('whenArr', al.get(m.group(1), ('id', m.group(1)))[1])
+            m = re.fullmatch(r'(?:reinterpret_cast<PyObject\*>\()?(\w+)\)? ?!= ?Py_None', c)
+            if m:
+                return ('whenNotNone', m.group(1))
+        return None
+
+    def note_assignments(text):
+        for p in params:
+            if re.search(r'(?<![\w.>])' + re.escape(p) + r'\s*=(?!=)', text):
+                ctx['dirty'].add(p)
+
+    def walk(stmts, path, depth):
+        for s in stmts:
+            if depth == 0 and STOP_RE.match(s):
+                break
+            if re.match(r'if\s*\(', s):
+                cur, cur_path = s, path
+                dirty0, dirty_all = set(ctx['dirty']), set(ctx['dirty'])
+                while True:
+                    dirty_all |= ctx['dirty']
+                    ctx['dirty'] = set(dirty0)          # an assignment in one branch does not reach the other branches
+                    cond, then, els = _if_parts(cur)
+                    act = _exit_action(then, labels)
+                    if act is not None:
+                        emit(cond, act, cur_path)
+                        nxt = cur_path            # verdict-equivalent: an exit branch need not be negated for the next ones
+                    else:
+                        pe = path_of(cond, False)
+                        inner_path = None if (cur_path is None or pe is None or pe[1] in ctx['dirty'] or pe[1] not in params) else cur_path + [pe]
+                        pn = path_of(cond, True)
+                        nxt = None if (cur_path is None or pn is None or pn[1] in ctx['dirty'] or pn[1] not in params) else cur_path + [pn]
+                        if depth < 2:
+                            walk(split_statements(_inner(then)), inner_path, depth + 1)
+                            dirty_all |= ctx['dirty']
+                            ctx['dirty'] = set(dirty0)
+                    if els is None:
+                        break
+                    if re.match(r'if\s*\(', els):
+                        cur, cur_path = els, nxt
+                        continue
+                    if depth < 2:
+                        walk(split_statements(_inner(els)), nxt, depth + 1)
+                    break
+                ctx['dirty'] |= dirty_all
+                note_assignments(s)
+                continue
+            # local aliases: `const int nd = PyArray_NDIM(a);`, `… size = PyArray_SIZE(a);`, `PyArrayObject* x = (PyArrayObject*)(obj);`
+            m = re.fullmatch(r'(?:const\s+)?[\w:]+\s+(\w+)\s*=\s*PyArray_(NDIM|SIZE)\((\w+)\)\s*;', s)
+            if m and m.group(3) in params and m.group(3) not in ctx['dirty']:
+                ctx['alias'][m.group(1)] = (m.group(2).lower(), m.group(3))
+                continue
+            m = re.fullmatch(r'PyArrayObject\s*\*\s*(\w+)\s*=\s*\(PyArrayObject\s*\*\)\s*\(?(\w+)\)?\s*;', s)
+            if m and m.group(2) in params and m.group(2) not in ctx['dirty']:
+                ctx['alias'][m.group(1)] = ('id', m.group(2))
+                continue
+            note_assignments(s)
+
+    walk(split_statements(body), [], 0)
+    # identity aliases are resolved inside atoms: `same_shape(array, labels_arr)` speaks about `labels_obj`
+    ids = {k: v[1] for k, v in ctx['alias'].items() if v[0] == 'id'}
+    return params, fmt, out, ids
+
+
+def extract_native(repo: Path):
+    """[(module, pyname, cname, params, fmt, [(atom, action)])] for every native entry point"""
+    res = []
+    files = sorted((repo / 'mahotas').glob('_*.cpp')) + sorted((repo / 'mahotas' / 'features').glob('_*.cpp'))
+    for p in files:
+        src = strip_comments(p.read_text())
+        methods = {c: py for py, c in METHOD_RE.findall(src)}
+        file_funcs = {}
+        for fm in re.finditer(r'\b(\w+)\s*\([^;{}()]*\)\s*\{', src):
+            if fm.group(1) not in ('if', 'for', 'while', 'switch', 'catch'):
+                try:
+                    file_funcs.setdefault(fm.group(1), src[fm.end():_match(src, fm.end() - 1, '{', '}')])
+                except TranslationError:
+                    pass
+        for m in ENTRY_RE.finditer(src):
+            cname = m.group(1)
+            end = _match(src, m.end() - 1, '{', '}')
+            body = src[m.end():end - 1]
+            if cname not in methods:
+                raise TranslationError(f'{p.name}: {cname} is not in the method table')
+            res.append((p.stem, methods[cname], cname) + native_guards(body, f'{p.name}:{cname}', file_funcs))
+    return res
+
+
+# entry points that theorems and the harness refer to: their disappearance is a broken tie
+NATIVE_REQUIRED = ['_convolve.find2d', '_convolve.template_match', '_convolve.convolve1d', '_convolve.rank_filter', '_morph.hitmiss',
+                   '_morph.majority_filter', '_center_of_mass.center_of_mass', '_thin.thin', '_interpolate.zoom_shift', '_distance.dt',
+                   '_bbox.bbox_labeled', '_texture.cooccurence', '_convex.convexhull', '_labeled.slic', '_morph.cwatershed']
 
 
 def generate(repo: Path, outdir: Path) -> dict:
@@ -173,12 +743,16 @@ def generate(repo: Path, outdir: Path) -> dict:
     lines = ['/- GENERATED by translator/guards.py from the current /repo sources. Do not edit. -/',
              'import Mahotas.Model.C11Base', 'namespace Mahotas.Generated', 'open Mahotas.C11', '']
     table = []
-    ninterp = 0
+    actions = []
+    ninterp = nopaque = 0
+    trees = {}
     for rel, names in sorted(PUBLIC.items()):
         p = repo / 'mahotas' / rel
         if not p.exists():
             raise TranslationError(f'{rel} not found')
-        tree = ast.parse(p.read_text())
+        with warnings.catch_warnings():
+            warnings.simplefilter('ignore', SyntaxWarning)          # invalid escapes in docstrings of the sources
+            tree = trees[rel] = ast.parse(p.read_text())
         for name in names:
             f = _func(tree, name)
             if f is None:
@@ -187,21 +761,61 @@ def generate(repo: Path, outdir: Path) -> dict:
             params = [a.arg for a in f.args.args]
             mod = rel[:-3].replace('/', '_')
             ident = f'guards_{mod}_{name}'
-            interp = [a for a in atoms if not a.startswith('.opaque')]
+            interp = [a for a in atoms if '.opaque' not in a]
             ninterp += len(interp)
+            nopaque += len(atoms) - len(interp)
             if interp:
                 lines.append(f'-- wrapper: {name}')
             lines.append(f'/-- guards of `mahotas/{rel}:{name}({", ".join(params)})` -/')
             lines.append(f'def {ident} : List Atom := [' + ', '.join(atoms) + ']')
             table.append((f'{mod}.{name}', name, ident))
+            actions.append((f'w:{mod}.{name}', ident, [0] * len(atoms)))      # extracted only when the body of the `if` raises
     lines.append('')
     lines.append('/-- (module.function, short name, guards) for every extracted wrapper -/')
     lines.append('def wrapperGuards : List (String × String × List Atom) := [')
     lines.append(',\n'.join(f'  ({_q(full)}, {_q(short)}, {ident})' for full, short, ident in table))
     lines.append(']')
+    lines.append('')
+    # reach conditions: the branch test in front of a native call
+    f = _func(trees['convolve.py'], 'convolve1d')
+    reach = reach_conditions(f, '_convolve.convolve1d')
+    lines.append('/-- what must hold (every atom passes) for `convolve.convolve1d` to call the native fast path `_convolve.convolve1d`;')
+    lines.append('    the names denote the local variables at the test -/')
+    lines.append('def reach_convolve_convolve1d : List Atom := [' + ', '.join(reach) + ']')
+    lines.append('')
+    # native entry points
+    natives = extract_native(repo)
+    have = {f'{mod}.{py}' for mod, py, *_ in natives}
+    for r in NATIVE_REQUIRED:
+        if r not in have:
+            raise TranslationError(f'native entry point {r} not found')
+    ntable = []
+    n_interp = n_opaque = 0
+    for mod, py, cname, params, fmt, atoms, ids in natives:
+        ident = f'nativeGuards{mod}_{py}'
+        lines.append(f'-- native: {mod}.{py} cfn={cname} params={",".join(params)} fmt={fmt}')
+        lines.append(f'/-- guards of `{cname}` (mahotas/{"features/" if mod in ("_lbp", "_surf", "_texture", "_zernike") else ""}{mod}.cpp), Python name `{mod}.{py}({", ".join(params)})` -/')
+        lines.append(f'def {ident} : List NAtom := [' + ', '.join(a for a, _ in atoms) + ']')
+        n_interp += sum(1 for a, _ in atoms if '.opaque' not in a and not a.startswith('.parse'))
+        n_opaque += sum(1 for a, _ in atoms if '.opaque' in a or a.startswith('.parse'))
+        ntable.append((f'{mod}.{py}', cname, ident))
+        actions.append((f'n:{mod}.{py}', ident, [act for _, act in atoms]))
+    lines.append('')
+    lines.append('/-- (module.python name, C function, guards) for every native entry point -/')
+    lines.append('def nativeGuardTable : List (String × String × List NAtom) := [')
+    lines.append(',\n'.join(f'  ({_q(full)}, {_q(c)}, {ident})' for full, c, ident in ntable))
+    lines.append(']')
+    lines.append('')
+    lines.append('/-- (entry, number of atoms of its guard list, action code of each atom — see `Mahotas.C11.actionIsException`) -/')
+    lines.append('def guardActionTable : List (String × Nat × List Nat) := [')
+    lines.append(',\n'.join(f'  ({_q(k)}, {ident}.length, [{", ".join(map(str, acts))}])' for k, ident, acts in actions))
+    lines.append(']')
     lines += ['', 'end Mahotas.Generated', '']
     changed = _write_if_changed(outdir / 'Guards.lean', '\n'.join(lines))
-    return dict(guards_changed=changed, guard_wrappers=len(table), guard_atoms_interpreted=ninterp)
+    bare = [k for k, _, acts in actions if 3 in acts]
+    return dict(guards_changed=changed, guard_wrappers=len(table), guard_atoms_interpreted=ninterp, guard_atoms_opaque=nopaque,
+                native_entry_points=len(ntable), native_atoms_interpreted=n_interp, native_atoms_opaque_or_parse=n_opaque,
+                bare_null_exits=bare)
 
 
 if __name__ == '__main__':
